@@ -27,9 +27,10 @@ def call_cases(labels, cases, name='calls'):
             if not ok:
                 out.append((tag + '.shape', z3.Not(w)))
                 continue
+            results = {'r%d' % j: ev.result for j, ev in enumerate(evs)}
             for j, (ev, exp) in enumerate(zip(evs, expected)):
                 opts = exp[2] if len(exp) > 2 else {}
-                bind = {}
+                bind = dict(results)
                 conj = []
                 if opts.get('loop'):
                     if not ev.loop:
